@@ -47,9 +47,11 @@ impl Command for CommandImpl {
                     Some(state_value) => match state_value {
                         StateValue::SubState(map) => {
                             for (env_key, env_value) in map {
-                                if !env_key.is_empty() {
+                                if is_valid_name(env_key) {
                                     if let Ok(env_value_string) = get_as_string(env_value) {
-                                        env::set_var(&env_key, &env_value_string);
+                                        if is_valid_value(&env_value_string) {
+                                            env::set_var(&env_key, &env_value_string);
+                                        }
                                     }
                                 }
                             }
@@ -62,6 +64,10 @@ impl Command for CommandImpl {
                         format!("Map for handle: {} not found.", key).to_string(),
                     ),
                 }
+            } else if !is_valid_name(&context.arguments[0]) {
+                CommandResult::Error("Invalid environment variable name.".to_string())
+            } else if !is_valid_value(&context.arguments[1]) {
+                CommandResult::Error("Invalid environment variable value.".to_string())
             } else {
                 env::set_var(&context.arguments[0], &context.arguments[1]);
 
@@ -69,6 +75,15 @@ impl Command for CommandImpl {
             }
         }
     }
+}
+
+/// std::env::set_var panics on an empty name, a name holding '=' or NUL, and a value holding NUL
+fn is_valid_name(name: &str) -> bool {
+    !name.is_empty() && !name.contains('=') && !name.contains('\0')
+}
+
+fn is_valid_value(value: &str) -> bool {
+    !value.contains('\0')
 }
 
 pub(crate) fn create(package: &str) -> Box<dyn Command> {
